@@ -258,8 +258,20 @@ def _eligible(fn: ast.FunctionDef, nested: bool = False) -> bool:
     a = fn.args
     if a.vararg or a.kwarg:
         return False
-    if nested and (a.defaults or any(d is not None for d in a.kw_defaults) or fn.decorator_list):
+    if nested and fn.decorator_list:
         return False
+    if nested:
+        # a default is evaluated once, at definition time: only immutable or never-mutated empty defaults may be re-evaluated per call
+        for arg, d in list(zip((a.posonlyargs + a.args)[len(a.posonlyargs + a.args) - len(a.defaults):], a.defaults)) + [(x, y) for x, y in zip(a.kwonlyargs, a.kw_defaults) if y is not None]:
+            empty = isinstance(d, (ast.List, ast.Tuple, ast.Dict)) and not (d.elts if not isinstance(d, ast.Dict) else d.keys)
+            if not (isinstance(d, ast.Constant) or empty):
+                return False
+            if empty:
+                for n in ast.walk(fn):
+                    if isinstance(n, ast.Attribute) and isinstance(n.value, ast.Name) and n.value.id == arg.arg:
+                        return False  # a method of the default object may mutate it
+                    if isinstance(n, ast.Subscript) and isinstance(n.value, ast.Name) and n.value.id == arg.arg and isinstance(n.ctx, (ast.Store, ast.Del)):
+                        return False
     for d in fn.decorator_list:
         if not (isinstance(d, ast.Name) and d.id in ("staticmethod", "classmethod")):
             return False
@@ -708,7 +720,9 @@ def _inline_helpers(mod: str, tree: ast.Module, all_helpers, trees, pkgs: Set[st
             """`x = g(h(a))` -> `t = h(a); x = g(t)` when h(a) is the first call evaluated by the statement."""
             nonlocal changed
             exprs: List[Tuple[ast.AST, str]] = []
-            if isinstance(st, ast.Expr):
+            if isinstance(st, ast.Expr) and isinstance(st.value, ast.Yield) and st.value.value is not None:
+                exprs = [(st.value, "value")]  # the yielded value is computed first, then yielded
+            elif isinstance(st, ast.Expr):
                 if isinstance(st.value, ast.Call) or (isinstance(st.value, ast.YieldFrom) and isinstance(st.value.value, ast.Call)):
                     inner = st.value if isinstance(st.value, ast.Call) else st.value.value
                     if stmt_helper_call(inner)[0] is not None:
